@@ -425,6 +425,23 @@ func (w *awWorld) apply(st *awStep, a *awArgs, si int) (string, error) {
 			w.add("issue", fmt.Sprintf("AddressInfo(%s,%d,%d,%d)", a.S, a.A, a.B, a.I),
 				fmt.Sprintf("account %d internal=%v", ma.InternalAccount(), ma.Internal()), fmt.Sprintf("account %d internal=%v", a.A, a.B == 1))
 		}
+		// the model prescribes what a private-key accessor answers here: "key" = unlocked, own account -
+		// the key of exactly this address (also for addresses issued while the wallet was locked)
+		if st.Ret == "key" {
+			pk, perr := e.w.PrivKeyForAddress(want)
+			w.n++
+			if perr != nil {
+				w.add("issue", fmt.Sprintf("PrivKeyForAddress(%s,%d,%d,%d) on an unlocked wallet", a.S, a.A, a.B, a.I), perr.Error(), "the address's private key")
+			} else {
+				got, _ := btcutil.NewAddressWitnessPubKeyHash(btcutil.Hash160(pk.PubKey().SerializeCompressed()), e.params)
+				if a.S != "bip84" || got == nil || got.String() != want.String() {
+					if a.S == "bip84" {
+						w.add("issue", fmt.Sprintf("PrivKeyForAddress(%s,%d,%d,%d): key of another address", a.S, a.A, a.B, a.I), fmt.Sprint(got), want.String())
+					}
+				}
+				pk.Zero()
+			}
+		}
 		return st.Ret, nil
 	case "NewAccount":
 		if a.Oc != "commit" {
@@ -610,6 +627,9 @@ func (w *awWorld) view(exp *awObs) {
 		}
 		if _, err := e.w.AccountProperties(scope, uint32(len(accts))); err == nil {
 			w.add("view", fmt.Sprintf("running: AccountProperties(%s/%d) of an account that does not exist", s, len(accts)), "ok", "error")
+		}
+		if nm, err := e.w.AccountName(scope, uint32(len(accts))); err == nil {
+			w.add("view", fmt.Sprintf("running: AccountName(%s/%d) of an account that does not exist", s, len(accts)), nm, "error")
 		}
 	}
 	// imported public keys: known to the running wallet and to a reopened one exactly when the model has them
